@@ -37,6 +37,42 @@ def _values_chain(flow, expr):
     return methods, e
 
 
+def as_splice(ctx, fi, expr, allow_call: bool = True):
+    """expr == t[:i] + tuple(v) + t[i+1:]  (or utils.splice_tuple(t, i, v)) -> (t, i, v) nodes, else None."""
+    flow = ctx.flow(fi)
+    e = flow.resolve(expr)
+    if allow_call and isinstance(e, ast.Call) and callee(ctx, fi, e) == f"{UTILS}.splice_tuple" and len(e.args) == 3:
+        return e.args[0], e.args[1], e.args[2]
+    parts = _flatten_add(e)
+    if len(parts) != 3:
+        return None
+    a, m, z = (flow.resolve(x) for x in parts)
+    if not (isinstance(a, ast.Subscript) and isinstance(a.slice, ast.Slice) and a.slice.lower is None and a.slice.step is None and a.slice.upper is not None):
+        return None
+    t, i = a.value, a.slice.upper
+    layers, core = peel_sequence(flow, m)
+    if not all(l[0] == 'conv' for l in layers):
+        return None
+    if not (isinstance(z, ast.Subscript) and isinstance(z.slice, ast.Slice) and z.slice.upper is None and z.slice.step is None):
+        return None
+    i_form = linear(flow, i)
+    if i_form is None:
+        return None
+    inner = flow.resolve(z.value)
+    lo = linear(flow, z.slice.lower) if z.slice.lower is not None else const(0)
+    if lo is None:
+        return None
+    if flow.canon(inner) == flow.canon(t):
+        ok = lo == i_form + const(1)
+    elif isinstance(inner, ast.Subscript) and flow.canon(inner.value) == flow.canon(t) and isinstance(inner.slice, ast.Slice) \
+            and inner.slice.upper is None and inner.slice.step is None and inner.slice.lower is not None:
+        lo2 = linear(flow, inner.slice.lower)
+        ok = lo2 is not None and lo2 + lo == i_form + const(1)
+    else:
+        ok = False
+    return (t, i, core) if ok else None
+
+
 def _flatten_add(e: ast.AST) -> list[ast.AST]:
     if isinstance(e, ast.BinOp) and isinstance(e.op, ast.Add):
         return _flatten_add(e.left) + _flatten_add(e.right)
@@ -138,20 +174,15 @@ def run(ctx: Context) -> None:
     ok_methods = len(methods) == 1 and methods[0].func.attr == 'reshape'
     ctx.check('R03.2', ok_base and ok_methods, "the output data is <moved array>.values.reshape(...) and nothing else", rv, item,
               construct=f"data={norm_text(flow.resolve(data))}")
-    nlen = symbol(('len', ('param', dims_p)))
-    env_len = {}
-
-    def lin_len(e):
-        # treat len(dimensions) as one symbol
-        class _T(ast.NodeTransformer):
-            pass
-        return linear(flow, e)
+    len_dims = flow.canon(ast.parse(f"len({dims_p})", mode='eval').body)
+    len_dims = ('call', ('global', 'len'), (('param', dims_p),), ())
 
     def is_neg_len(e: Optional[ast.AST]) -> bool:
-        e = flow.resolve(e) if e is not None else None
-        return (isinstance(e, ast.UnaryOp) and isinstance(e.op, ast.USub) and isinstance(e.operand, ast.Call)
-                and isinstance(e.operand.func, ast.Name) and e.operand.func.id == 'len' and len(e.operand.args) == 1
-                and flow.canon(e.operand.args[0]) == ('param', dims_p))
+        """e == -len(dimensions), through any local aliases."""
+        if e is None:
+            return False
+        form = linear(flow, e)
+        return form is not None and form == symbol(len_dims).scale(-1)
 
     if ok_methods:
         rs = methods[0]
@@ -198,17 +229,17 @@ def run(ctx: Context) -> None:
     # ------------------------------------------------------------------ utils.find_unused_dimension
     fu = ctx.func(f"{UTILS}.find_unused_dimension")
     flow = ctx.flow(fu)
+    from .common import path_conditions
     ok_all = True
     detail = []
     for r in fu.returns():
         v = flow.resolve(r.value)
         good = False
-        # `return prefix` under `prefix not in existing`
-        for st, inb in enclosing_ifs(fu, r):
-            t = st.test
-            if inb and isinstance(t, ast.Compare) and len(t.ops) == 1 and isinstance(t.ops[0], ast.NotIn) \
-                    and flow.canon(t.left) == flow.canon(r.value):
-                good = True
+        # the returned name is known, on every path to the return, not to be an existing dimension
+        for test, pol in path_conditions(fu, r):
+            if isinstance(test, ast.Compare) and len(test.ops) == 1 and flow.canon(test.left) == flow.canon(r.value):
+                if (isinstance(test.ops[0], ast.NotIn) and pol) or (isinstance(test.ops[0], ast.In) and not pol):
+                    good = True
         # `return next(c for c in candidates if c not in existing)`
         if isinstance(v, ast.Call) and dotted(v.func) == 'next' and v.args and isinstance(v.args[0], ast.GeneratorExp):
             g = v.args[0]
@@ -225,28 +256,8 @@ def run(ctx: Context) -> None:
     wd = ctx.func(f"{UTILS}.wind_dimension")
     flow = ctx.flow(wd)
     da = wd.params[0]
-    splices = [c for c in calls_in(wd) if callee(ctx, wd, c) == f"{UTILS}.splice_tuple"]
-    ctx.need('R03.1', len(splices) == 2, f"expected two splice_tuple calls, found {len(splices)}", wd)
-    by_src = {}
-    for s in splices:
-        src = flow.resolve(s.args[0]) if s.args else None
-        if isinstance(src, ast.Attribute) and flow.canon(src.value) == ('param', da):
-            by_src[src.attr] = s
-    ctx.need('R03.1', set(by_src) == {'dims', 'shape'}, f"splice_tuple is not applied to data_array.dims and data_array.shape", wd)
-    sd, ss = by_src['dims'], by_src['shape']
-    ctx.check('R03.1', flow.canon(sd.args[1]) == flow.canon(ss.args[1]), "dims and shape are spliced at the same index", wd, ss,
-              construct=f"splice index dims={norm_text(sd.args[1])} shape={norm_text(ss.args[1])}")
-    idx = flow.resolve(sd.args[1])
-    ok_idx = (isinstance(idx, ast.Call) and isinstance(idx.func, ast.Attribute) and idx.func.attr == 'index'
-              and flow.canon(idx.func.value) == ('attr', ('param', da), 'dims') and len(idx.args) == 1
-              and flow.canon(idx.args[0]) == ('param', 'linear_dimension'))
-    ctx.check('R03.1', ok_idx, "the splice index is the position of the linear dimension in data_array.dims", wd, sd,
-              construct=f"splice index = {norm_text(idx)}")
-    ctx.check('R03.1', flow.canon(sd.args[2]) == ('param', 'dimensions') and flow.canon(ss.args[2]) == ('param', 'sizes'),
-              "dims receive `dimensions` and shape receives `sizes`, both as given", wd, sd,
-              construct=f"spliced values dims<-{norm_text(sd.args[2])} shape<-{norm_text(ss.args[2])}")
     items = _returned_dataarray(ctx, wd)
-    ctx.need('R03.2', len(items) == 1, f"expected one returned DataArray", wd)
+    ctx.need('R03.1', len(items) == 1, f"{wd.short}: expected one returned DataArray", wd)
     r, item = items[0]
     data = arg_or_kw(item, 0, 'data')
     dims = arg_or_kw(item, 2, 'dims')
@@ -255,39 +266,37 @@ def run(ctx: Context) -> None:
           and flow.canon(b.value) == ('param', da))
     ctx.check('R03.2', ok, "the output data is data_array.values.reshape(...) and nothing else", wd, item,
               construct=f"data={norm_text(flow.resolve(data))}")
+    shape_expr = methods[0].args[0] if ok and methods[0].args else None
     if ok:
-        rs = methods[0]
-        order_kw = kwarg(rs, 'order')
-        ctx.check('R03.1', (order_kw is None or const_value(order_kw, None) == 'C') and len(rs.args) == 1
-                  and flow.resolve(rs.args[0]) is ss, "reshape to the spliced shape in C order", wd, rs)
-    ctx.check('R03.1', dims is not None and flow.resolve(dims) is sd, "the output dims are the spliced dims", wd, item,
-              construct=f"dims={norm_text(flow.resolve(dims)) if dims is not None else '?'}")
+        order_kw = kwarg(methods[0], 'order')
+        ctx.check('R03.1', (order_kw is None or const_value(order_kw, None) == 'C') and len(methods[0].args) == 1, "reshape in C order", wd, methods[0],
+                  construct=f"reshape order={norm_text(order_kw) if order_kw is not None else 'default'}")
+    sd = as_splice(ctx, wd, dims) if dims is not None else None
+    ss = as_splice(ctx, wd, shape_expr) if shape_expr is not None else None
+    ctx.check('R03.1', sd is not None and ss is not None, "new dims and new shape are both splice(t, i, v) = t[:i] + v + t[i+1:]", wd, item,
+              construct=f"dims={norm_text(flow.resolve(dims)) if dims is not None else '?'}; shape={norm_text(flow.resolve(shape_expr)) if shape_expr is not None else '?'}")
+    if sd is not None and ss is not None:
+        ctx.check('R03.1', flow.canon(sd[0]) == ('attr', ('param', da), 'dims') and flow.canon(ss[0]) == ('attr', ('param', da), 'shape'),
+                  "the tuples spliced are data_array.dims and data_array.shape", wd, item, construct=f"spliced: {norm_text(sd[0])}, {norm_text(ss[0])}")
+        ctx.check('R03.1', flow.canon(sd[1]) == flow.canon(ss[1]), "dims and shape are spliced at the same index", wd, item,
+                  construct=f"splice index dims={norm_text(flow.resolve(sd[1]))} shape={norm_text(flow.resolve(ss[1]))}")
+        idx = flow.resolve(sd[1])
+        ok_idx = (isinstance(idx, ast.Call) and isinstance(idx.func, ast.Attribute) and idx.func.attr == 'index'
+                  and flow.canon(idx.func.value) == ('attr', ('param', da), 'dims') and len(idx.args) == 1
+                  and flow.canon(idx.args[0]) == ('param', 'linear_dimension'))
+        ctx.check('R03.1', ok_idx, "the splice index is the position of the linear dimension in data_array.dims", wd, item,
+                  construct=f"splice index = {norm_text(idx)}")
+        ctx.check('R03.1', flow.canon(sd[2]) == ('param', 'dimensions') and flow.canon(ss[2]) == ('param', 'sizes'),
+                  "dims receive `dimensions` and shape receives `sizes`, both as given", wd, item,
+                  construct=f"spliced values dims<-{norm_text(sd[2])} shape<-{norm_text(ss[2])}")
 
     sp = ctx.func(f"{UTILS}.splice_tuple")
     flow = ctx.flow(sp)
     t_p, i_p, v_p = sp.params[:3]
     rets = sp.returns()
     ctx.need('R03.1', len(rets) == 1, f"expected one return", sp)
-    parts = _flatten_add(flow.resolve(rets[0].value))
-    ok_sp = False
-    if len(parts) == 3:
-        a, m, z = (flow.resolve(x) for x in parts)
-        ok_a = (isinstance(a, ast.Subscript) and flow.canon(a.value) == ('param', t_p) and isinstance(a.slice, ast.Slice)
-                and a.slice.lower is None and a.slice.step is None and a.slice.upper is not None
-                and flow.canon(a.slice.upper) == ('param', i_p))
-        layers, core = peel_sequence(flow, m)
-        ok_m = all(l[0] == 'conv' for l in layers) and flow.canon(core) == ('param', v_p)
-        ok_z = False
-        if isinstance(z, ast.Subscript) and isinstance(z.slice, ast.Slice) and z.slice.upper is None and z.slice.step is None:
-            inner = flow.resolve(z.value)
-            lo = linear(flow, z.slice.lower, {i_p: symbol('i')}) if z.slice.lower is not None else const(0)
-            if flow.canon(inner) == ('param', t_p):
-                ok_z = lo == symbol('i') + const(1)
-            elif isinstance(inner, ast.Subscript) and flow.canon(inner.value) == ('param', t_p) and isinstance(inner.slice, ast.Slice) \
-                    and inner.slice.upper is None and inner.slice.step is None and inner.slice.lower is not None:
-                lo2 = linear(flow, inner.slice.lower, {i_p: symbol('i')})
-                ok_z = lo2 is not None and lo is not None and lo2 + lo == symbol('i') + const(1)
-        ok_sp = ok_a and ok_m and ok_z
+    got = as_splice(ctx, sp, rets[0].value, allow_call=False)
+    ok_sp = got is not None and flow.canon(got[0]) == ('param', t_p) and flow.canon(got[1]) == ('param', i_p) and flow.canon(got[2]) == ('param', v_p)
     ctx.check('R03.1', ok_sp, "splice_tuple(t, i, v) = t[:i] + v + t[i+1:]", sp, rets[0])
 
     # ------------------------------------------------------------------ DimensionConvention.ravel / wind / get_grid_kind
@@ -326,35 +335,43 @@ def run(ctx: Context) -> None:
         rets = [n for k, n in exits if k == 'return']
         ctx.check('R03.4', not falls and len(raises) >= 1, "the only exit without a matching grid is a raise", fi,
                   falls[0] if falls else fi.node, construct=f"exits: {len(rets)} return, {len(raises)} raise, {len(falls)} fall-through")
+        from .common import path_conditions
         ok_ret = len(rets) >= 1
+        ok_loop = False
+        loops = [n for n in walk_no_nested(fi.node) if isinstance(n, ast.For)]
         for r in rets:
             good = False
-            for st, inb in enclosing_ifs(fi, r):
-                t = st.test
-                if inb and isinstance(t, ast.Call) and isinstance(t.func, ast.Attribute) and t.func.attr == 'issuperset' and t.args:
+            for t, pol in path_conditions(fi, r):
+                if pol and isinstance(t, ast.Call) and isinstance(t.func, ast.Attribute) and t.func.attr == 'issuperset' and len(t.args) == 1:
                     recv = flow.resolve(t.func.value)
-                    if isinstance(recv, ast.Call) and dotted(recv.func) == 'set' and recv.args \
+                    if isinstance(recv, ast.Call) and dotted(recv.func) in ('set', 'frozenset') and recv.args \
                             and flow.canon(recv.args[0]) == ('attr', ('param', fi.params[1]), 'dims'):
-                        # the argument is the loop's dimensions and the value returned is the loop's kind
                         good = True
+                        # kind returned and dimensions tested come from the same item of grid_dimensions
+                        for lp in loops:
+                            it = flow.resolve(lp.iter)
+                            if isinstance(it, ast.Call) and isinstance(it.func, ast.Attribute) and it.func.attr == 'items' \
+                                    and flow.canon(it.func.value) == ('attr', ('param', 'self'), 'grid_dimensions') \
+                                    and isinstance(lp.target, ast.Tuple) and len(lp.target.elts) == 2 \
+                                    and all(isinstance(e, ast.Name) for e in lp.target.elts) \
+                                    and isinstance(r.value, ast.Name) and r.value.id == lp.target.elts[0].id \
+                                    and isinstance(t.args[0], ast.Name) and t.args[0].id == lp.target.elts[1].id:
+                                ok_loop = True
+                if pol and isinstance(t, ast.Compare) and len(t.ops) == 1 and isinstance(t.ops[0], (ast.LtE, ast.GtE)):
+                    # set(dimensions) <= set(data_array.dims)  /  set(dims) >= set(dimensions)
+                    small, big = (t.left, t.comparators[0]) if isinstance(t.ops[0], ast.LtE) else (t.comparators[0], t.left)
+                    bg = flow.resolve(big)
+                    if isinstance(bg, ast.Call) and dotted(bg.func) in ('set', 'frozenset') and bg.args \
+                            and flow.canon(bg.args[0]) == ('attr', ('param', fi.params[1]), 'dims'):
+                        good = True
+                        for lp in loops:
+                            if isinstance(lp.target, ast.Tuple) and len(lp.target.elts) == 2 and isinstance(r.value, ast.Name) \
+                                    and isinstance(lp.target.elts[0], ast.Name) and r.value.id == lp.target.elts[0].id \
+                                    and any(isinstance(n, ast.Name) and isinstance(lp.target.elts[1], ast.Name) and n.id == lp.target.elts[1].id for n in ast.walk(small)):
+                                ok_loop = True
             ok_ret = ok_ret and good
         ctx.check('R03.4', ok_ret, "a kind is returned only when set(data_array.dims) is a superset of that kind's dimensions", fi,
                   rets[0] if rets else fi.node, construct='guard of `return kind`')
-        # the loop iterates grid_dimensions items and returns the paired kind
-        loops = [n for n in walk_no_nested(fi.node) if isinstance(n, ast.For)]
-        ok_loop = False
-        for lp in loops:
-            it = flow.resolve(lp.iter)
-            if isinstance(it, ast.Call) and isinstance(it.func, ast.Attribute) and it.func.attr == 'items' \
-                    and flow.canon(it.func.value) == ('attr', ('param', 'self'), 'grid_dimensions') \
-                    and isinstance(lp.target, ast.Tuple) and len(lp.target.elts) == 2:
-                kvar, dvar = lp.target.elts
-                for r in rets:
-                    if isinstance(r.value, ast.Name) and isinstance(kvar, ast.Name) and r.value.id == kvar.id:
-                        for st, inb in enclosing_ifs(fi, r):
-                            if isinstance(st.test, ast.Call) and st.test.args and isinstance(st.test.args[0], ast.Name) \
-                                    and isinstance(dvar, ast.Name) and st.test.args[0].id == dvar.id:
-                                ok_loop = True
         ctx.check('R03.4', ok_loop, "kind and dimensions tested are the same item of grid_dimensions", fi, loops[0] if loops else fi.node,
                   construct='for kind, dimensions in self.grid_dimensions.items(): test dimensions, return kind')
 
@@ -397,15 +414,16 @@ def run(ctx: Context) -> None:
         # guards
         assigns = [n for n in walk_no_nested(fi.node) if isinstance(n, ast.Assign)
                    and any(isinstance(t, ast.Name) and t.id == 'linear_dimension' for t in n.targets)]
+        from .common import known_none
         guard_ok = len(assigns) == 2
         for a in assigns:
-            gs = enclosing_ifs(fi, a)
             cv = flow.canon(a.value)
+            axis_none = known_none(fi, a, lambda e: isinstance(e, ast.Name) and e.id == 'axis')
+            name_none = known_none(fi, a, lambda e: isinstance(e, ast.Name) and e.id == 'linear_dimension')
             if cv == want_axis:
-                guard_ok = guard_ok and any(inb and norm_text(st.test) == 'axis is not None' for st, inb in gs)
+                guard_ok = guard_ok and axis_none is False
             elif cv == want_last:
-                tests = [(norm_text(st.test), inb) for st, inb in gs]
-                guard_ok = guard_ok and ('linear_dimension is None', True) in tests and ('axis is not None', False) in tests
+                guard_ok = guard_ok and axis_none is True and name_none is True
             else:
                 guard_ok = False
         ctx.check('R03.5', ok5 and guard_ok, "axis wins, then the given name, then the last dimension", fi, assigns[0] if assigns else call,
